@@ -44,6 +44,11 @@ def rename_scheme(u, names):
     return r
 
 
+# node names that are prefixes / suffixes of each other around '_' (the separator of the library's helper-node names):
+# ("a", "b_c") and ("a_b", "c") are different edges
+UNDERSCORED = ["a", "a_b", "b_c", "c", "b", "a_b_c", "c_c"]
+
+
 def pick(seq, n, rng):
     seq = list(seq)
     if len(seq) <= n:
@@ -239,3 +244,20 @@ def zeroed(u):
     v["ew"] = [ef[tuple(e)] for e in u["edges"]]
     v["nw"] = [nf[n] for n in u["nodes"]]
     return v if 0 in v["ew"] else None
+
+
+def lonely(u, rng):
+    """zeroed(u) with ONE of its zero-flow edges given a positive value again: an element carrying weight in a part of the graph
+    that carries none otherwise (ignoring it - by scale 0 or by name - makes the remaining weights a flow again).
+    Returns (instance, that edge) or None.  Pure instance composition."""
+    z = zeroed(u)
+    if not z:
+        return None
+    zero = [i for i, w in enumerate(z["ew"]) if w == 0]
+    if not zero:
+        return None
+    i = rng.choice(zero)
+    v = dict(z)
+    v["ew"] = list(z["ew"])
+    v["ew"][i] = rng.choice([2, 3, 5])
+    return v, list(z["edges"][i])
